@@ -365,8 +365,11 @@ def run_calibration(case, scheduler, workers, chunk, parallel_islands):
             pygmo_seed=case["pygmo_seed"], pipeline_seed=case["pipeline_seed"], num_islands=case["islands"],
             num_evolutions=2, topology=case["topology"],
         )
-        patches = [mock.patch.object(calmod, "DaskBFE", functools.partial(calmod.DaskBFE, chunk_size=chunk))]
-        if not parallel_islands:
+        # (defensive: if a tree reaches these classes under another name the variation is skipped, not an error)
+        patches = []
+        if chunk is not None and hasattr(calmod, "DaskBFE"):
+            patches.append(mock.patch.object(calmod, "DaskBFE", functools.partial(calmod.DaskBFE, chunk_size=chunk)))
+        if not parallel_islands and hasattr(calmod, "ArchipelagoDataTree"):
             patches.append(mock.patch.object(calmod, "ArchipelagoDataTree",
                                              functools.partial(calmod.ArchipelagoDataTree, parallel=False)))
         cfg = {"scheduler": scheduler}
